@@ -9,7 +9,7 @@ evaluations; an argument whose deep snapshot changed; a self-description, GetDef
 differs from a fresh instance built the same way.  A difference between the code and the model's expected
 result that both the used and a fresh instance show is drift (owned by C01-C03).
 """
-import os, json, threading
+import os, json, threading, random
 from vlib import common
 from props import instance_common as ic
 
@@ -77,7 +77,11 @@ def run(ctx):
         raise common.Infra("InstanceMC exported no histories")
     ctx.exhaustive = True
     targeted = hist_cases([w for d in sorted(wit) for w in wit[d]], reps, targeted=True)
-    cases = targeted + hist_cases(recs, reps)
+    generic = hist_cases(recs, reps)
+    # seeded shuffle: which histories share a worker process (and in which order) varies with the seed, so that
+    # state kept outside the instance shows up as different results for one (schema, argument)
+    random.Random(ctx.seed).shuffle(generic)
+    cases = targeted + generic
     ctx.log("cases: %d (%d targeted from deviation witnesses), %d evaluations per call" % (len(cases), len(targeted), reps))
     results = ic.run_driver(ctx, drv, cases, "hist")
     ic.consume(ctx, cases, results)
